@@ -2686,6 +2686,33 @@ class StateEngine(object):
                 execution_arn = context["Execution"]["Id"]
 
                 """
+                Like the edge case of a Map state with an empty input array,
+                a Parallel state with no Branches has no branch to wait for:
+                no event would be published and no result would ever be
+                collected, so the execution would be left RUNNING for ever.
+                Its result is the (empty) array of the outputs of its branches.
+                """
+                if not state.get("Branches"):
+                    result = evaluate_payload_template(
+                        [], context, state.get("ResultSelector")
+                    )
+
+                    # Parallel and Map states apply ResultPath to "raw input"
+                    event["data"] = merge_result(data, context, result, state)
+
+                    if state.get("End"):
+                        handle_terminal_state(state_type, event, id)
+                    else:
+                        error_type, error_message = self.change_state(
+                            state_machine, state_type, state.get("Next"), event
+                        )
+                        if error_type:
+                            handle_error(state, error_type, error_message)
+
+                        self.event_dispatcher.acknowledge(id)
+                    return
+
+                """
                 A Parallel State MUST contain a field named “Branches” which
                 is an array whose elements MUST be objects. Each object MUST
                 contain fields named “States” and “StartAt” whose meanings are
